@@ -12,18 +12,25 @@ vars == <<l>>
 \* a client whose connection has closed is never handed out
 P16a(e) == e.closed_handout = 0
 \* every recycle check is exactly the documented query of the recycling method (none for Fast)
-P16b(e) == e.bad_q = 0 /\ (e.fast => e.nqueries = 0)
+P16b(e) == e.bad_q = 0 /\ ((e.fast /\ e.k # "stress") => e.nqueries = 0)
 \* prepare_[typed_]cached: a hit causes no round trip; a miss one Parse on that connection for
 \* exactly that text and those parameter types; the statement has those parameter types
 P16c(e) == e.bad_prepare = 0
 \* size() = number of cached keys; clear()/remove() reach the pool's clients and no others
 P16d(e) == e.bad_size = 0
+\* the registry holds exactly the caches of the clients the pool owns (attached at create, detached
+\* whenever the pool lets go of a client)
+P16f(e) == /\ (e.k = "step" => e.reg_n = e.size)
+           \* ... also when every client is taken at the same moment (second half of the probe)
+           /\ (e.k = "probe2" => (e.reg_n = 0 /\ e.size = 0))
+           \* ... and of a larger pool every other client (the rest stays checked out and registered)
+           /\ (e.k = "stress" => e.reg_n = e.size)
 \* discarded clients are replaced, taken ones free their slot
 P16e(e) == e.size <= e.max /\ (e.k = "probe" => (e.probe_got = e.max /\ e.size = e.max))
 
-Names == {"P16a", "P16b", "P16c", "P16d", "P16e"}
+Names == {"P16a", "P16b", "P16c", "P16d", "P16e", "P16f"}
 StateViol(e) == {n \in Names : ~ CASE n = "P16a" -> P16a(e) [] n = "P16b" -> P16b(e) [] n = "P16c" -> P16c(e)
-                                     [] n = "P16d" -> P16d(e) [] n = "P16e" -> P16e(e)}
+                                     [] n = "P16d" -> P16d(e) [] n = "P16e" -> P16e(e) [] n = "P16f" -> P16f(e)}
 Init == l = 0
 Next ==
   /\ l < Len(Rec)
